@@ -18,6 +18,14 @@ import (
 const earlyTolNs = 2_000_000 // a start counts as early only if it is more than 2 ms before the scheduled time
 
 type mtask struct {
+	promInFlight   bool    // the schedule handler saw the scheduled time come and has not yet called StartASAP
+	promCarry      []int64 // the scheduled times that promotion stands for
+	inert          bool  // created on a nil module: born cancelled, no max delay
+	maxDelayZero   bool  // last MaxDelay call set 0 (own books, not the implementation's snapshot)
+	execNo         int   // number of starts seen
+	inExec         bool  // between a start and the end of its deferred section
+	lastSubExec    int   // execution during which the last submission was made, -1 if none was in progress
+	lastSkipExecNo int   // execution during which the last skip-executing happened, -1
 	cancelIdx      int // index of the first cancel event, -1
 	cancelWaiting  bool
 	subs, starts   int
@@ -61,7 +69,7 @@ func monitor(c hxlib.Case, outs []string) (vs []hxlib.Violation) {
 	}
 	ts := make([]*mtask, scn.N)
 	for i := range ts {
-		ts[i] = &mtask{cancelIdx: -1, lastSubIdx: -1, lastStartIdx: -1, lastSkipExec: -1}
+		ts[i] = &mtask{cancelIdx: -1, lastSubIdx: -1, lastStartIdx: -1, lastSkipExec: -1, lastSubExec: -1, lastSkipExecNo: -1}
 	}
 	execWait := int64(60_000_000_000)
 	// order books
@@ -90,8 +98,8 @@ func monitor(c hxlib.Case, outs []string) (vs []hxlib.Violation) {
 				if len(f) > 3 {
 					ended = f[3]
 				}
-				if ended == "worker-failed" {
-					add("C07:scheduler-crash", "the process running the scenario died (panic or fatal error in the scheduler) three times in a row", i)
+				if ended == "worker-died" {
+					add("C07:scheduler-crash", "the process running the scenario on the real scheduler died: "+strings.Join(f[4:], " ")+" — after that no task is executed at all", i)
 				}
 			}
 			continue
@@ -103,8 +111,7 @@ func monitor(c hxlib.Case, outs []string) (vs []hxlib.Violation) {
 		if j := strings.Index(l, " | "); j >= 0 {
 			snap = l[j+3:]
 		}
-		canceled := strings.HasPrefix(snap, "c1")
-		waiting := strings.Contains(snap, " q1") || strings.Contains(snap, " p1") || strings.Contains(snap, " s1")
+		_ = snap
 		act := f[2]
 		tk := func(pos int) (int, *mtask) {
 			if pos < len(f) {
@@ -114,18 +121,44 @@ func monitor(c hxlib.Case, outs []string) (vs []hxlib.Violation) {
 			}
 			return -1, nil
 		}
+		// own books: is the task cancelled / waiting at this moment?
+		isCanceled := func(t *mtask) bool { return t.inert || t.cancelIdx >= 0 }
+		isWaiting := func(k int, t *mtask) bool {
+			_, a := waitA[k]
+			_, p := waitP[k]
+			_, n := waitN[k]
+			return a || p || n || t.pendingSched != 0
+		}
+		curExec := func(t *mtask) int {
+			if t.inExec {
+				return t.execNo
+			}
+			return -1
+		}
 		switch act {
+		case "newinert":
+			if _, t := tk(3); t != nil {
+				t.inert, t.maxDelayZero = true, true
+			}
+		case "maxdelay":
+			if _, t := tk(3); t != nil && len(f) > 4 {
+				t.maxDelayZero = f[4] == "0"
+			}
+		case "finish":
+			if _, t := tk(3); t != nil {
+				t.inExec = false
+			}
 		case "queue", "queuep":
 			k, t := tk(3)
 			if t == nil {
 				continue
 			}
 			t.subs++
-			if canceled {
+			if isCanceled(t) {
 				continue
 			}
-			t.lastSubIdx, t.userSub = i, true
-			if strings.Contains(snap, " md=0 ") == false {
+			t.lastSubIdx, t.userSub, t.lastSubExec = i, true, curExec(t)
+			if !t.maxDelayZero {
 				t.pendingSched = 0 // the max-delay entry replaces the scheduled time
 			}
 			if act == "queue" {
@@ -148,14 +181,16 @@ func monitor(c hxlib.Case, outs []string) (vs []hxlib.Violation) {
 			}
 			if f[3] != "sh" {
 				t.subs++
+			} else {
+				t.promInFlight = false
 			}
-			if canceled {
+			if isCanceled(t) {
 				continue
 			}
 			if f[3] != "sh" {
-				t.lastSubIdx, t.userSub = i, true
+				t.lastSubIdx, t.userSub, t.lastSubExec = i, true, curExec(t)
 			}
-			if strings.Contains(snap, " md=0 ") == false {
+			if !t.maxDelayZero {
 				t.pendingSched = 0
 			}
 			if !pickedPrio[k] {
@@ -181,20 +216,25 @@ func monitor(c hxlib.Case, outs []string) (vs []hxlib.Violation) {
 			}
 			t.subs++
 			t.schedTimes = append(t.schedTimes, x)
-			if !canceled {
+			if !isCanceled(t) {
 				t.pendingSched, t.pendingIdx = x, i
 			}
 		case "cancel":
-			_, t := tk(3)
+			k, t := tk(3)
 			if t != nil && t.cancelIdx < 0 {
+				t.cancelWaiting = isWaiting(k, t) || pickedPrio[k] || pickedNorm[k]
 				t.cancelIdx = i
-				t.cancelWaiting = waiting
 			}
 		case "shfetch":
 			if len(f) > 4 && f[3] == "asap" {
 				// the scheduled time of the task has come (observed by the schedule handler)
-				if _, t := tk(4); t != nil && !canceled {
-					t.lastSubIdx = i
+				if _, t := tk(4); t != nil {
+					if !isCanceled(t) {
+						t.lastSubIdx, t.lastSubExec = i, curExec(t)
+					}
+					// the promotion stays valid if the task is started through another route before the
+					// schedule handler's StartASAP call is executed
+					t.promInFlight, t.promCarry = true, append([]int64{}, t.schedTimes...)
 				}
 			}
 		case "qhpop":
@@ -257,13 +297,15 @@ func monitor(c hxlib.Case, outs []string) (vs []hxlib.Violation) {
 			delete(pickedNorm, k)
 			switch f[5] {
 			case "skip-executing":
-				t.lastSkipExec = i
+				t.lastSkipExec, t.lastSkipExecNo = i, curExec(t)
 				t.pendingSched = 0
 			case "start":
 				if t.cancelIdx >= 0 && t.cancelWaiting {
 					add("C07:started-after-cancel", fmt.Sprintf("task %d left the waiting state and started although it was cancelled while waiting", k), i)
 				}
 				t.starts++
+				t.execNo++
+				t.inExec = true
 				if t.starts > t.subs {
 					add("C07:more-runs-than-submissions", fmt.Sprintf("task %d: start no. %d but only %d submissions so far", k, t.starts, t.subs), i)
 				}
@@ -274,6 +316,9 @@ func monitor(c hxlib.Case, outs []string) (vs []hxlib.Violation) {
 				t.lastStartIdx = i
 				t.userSub = false
 				t.schedTimes = nil
+				if t.promInFlight {
+					t.schedTimes = append([]int64{}, t.promCarry...)
+				}
 				t.pendingSched = 0
 				if f[3] == "qh" {
 					qhRuns = append(qhRuns, &qhRun{t: k, startNow: now})
@@ -325,7 +370,9 @@ func monitor(c hxlib.Case, outs []string) (vs []hxlib.Violation) {
 			if !owed && !duePending {
 				continue
 			}
-			if owed && t.lastSkipExec > t.lastSubIdx {
+			// the recorded finding, and only it: the last submission was made DURING an execution and the task was
+			// dequeued (check section found it executing) during that same execution
+			if owed && t.lastSkipExec > t.lastSubIdx && t.lastSubExec >= 0 && t.lastSubExec == t.lastSkipExecNo {
 				add("C07:resubmitted-while-executing-dropped", fmt.Sprintf("task %d was submitted again while it was executing; the request was dropped when the task was dequeued during that execution and the task was never executed after its last submission", k), len(c.Lines)-1)
 				continue
 			}
